@@ -210,18 +210,19 @@ func CheckStringTypeChanges(diffs []TypeDiff, type1, type2 *spec.SchemaProps) []
 		if type1.Pattern != type2.Pattern {
 			diffs = addTypeDiff(diffs, TypeDiff{Change: ChangedType, Description: fmt.Sprintf("Pattern Changed:%s->%s", type1.Pattern, type2.Pattern)})
 		}
-		if type1.Type[0] == StringType {
-			switch {
-			case len(type1.Enum) > 0 && len(type2.Enum) > 0:
-				enumDiffs := CompareEnums(type1.Enum, type2.Enum)
-				diffs = append(diffs, enumDiffs...)
-			case len(type2.Enum) > 0:
-				// any string was accepted, only the listed ones are now: a constraint has been added
-				diffs = append(diffs, TypeDiff{Change: AddedConstraint, Description: enumConstraint(type2.Enum)})
-			case len(type1.Enum) > 0:
-				// and the other way round
-				diffs = append(diffs, TypeDiff{Change: DeletedConstraint, Description: enumConstraint(type1.Enum)})
-			}
+	}
+	// an enum restricts the values of any primitive type, not only of strings
+	if type1.Type[0] == type2.Type[0] {
+		switch {
+		case len(type1.Enum) > 0 && len(type2.Enum) > 0:
+			enumDiffs := CompareEnums(type1.Enum, type2.Enum)
+			diffs = append(diffs, enumDiffs...)
+		case len(type2.Enum) > 0:
+			// any value was accepted, only the listed ones are now: a constraint has been added
+			diffs = append(diffs, TypeDiff{Change: AddedConstraint, Description: enumConstraint(type2.Enum)})
+		case len(type1.Enum) > 0:
+			// and the other way round
+			diffs = append(diffs, TypeDiff{Change: DeletedConstraint, Description: enumConstraint(type1.Enum)})
 		}
 	}
 	return diffs
